@@ -407,6 +407,18 @@ func c07conns(r *Run) {
 		pol.MaxDelay = 4 * time.Second
 		pol.Reorder = true
 	}
+	// In one run of three with duplication faults, a duplicate and its original may arrive back to back
+	// (Burst) and every lock operation is a seeded scheduling point: the DNS server serves every datagram
+	// on its own goroutine, so the two copies of a query are then processed at the same time.
+	// (Only in the "heavy" class: the isolated-loss class promises faults that are far apart.)
+	concurrentDups := class == "heavy" && c.Chance(1, 2, "concurrent-duplicates")
+	if concurrentDups {
+		pol.Burst = 3
+		if pol.DupBudget < 10 {
+			pol.DupBudget = 10 + c.Pick(30, "more-dups")
+		}
+		r.Count("runs_with_concurrent_duplicates")
+	}
 	// old queries that may be replayed
 	var old [][]byte
 	var oldFrom, oldTo net.Addr
@@ -473,7 +485,11 @@ func c07conns(r *Run) {
 		scriptsDone := len(pc.Script) == 0 && len(ps.Script) == 0 && pc.Idle() && ps.Idle()
 		return scriptsDone && cr == ss && sr == cs
 	}
+	if concurrentDups {
+		r.YieldsOn("yield-seed")
+	}
 	out = r.Drive(pol, done, extra, 2*time.Minute, 60*time.Minute)
+	r.YieldsOff()
 	if out == Aborted {
 		return
 	}
